@@ -164,7 +164,10 @@ def o4(W, ob):
                     gf = fast[0][1]
                     trig = every_disjunct_has(gf, lambda a: match_lin(a, [(has('frames_behind_host('), 1), (exact('self.max_frames_behind'), -1)], lo=1))
                     kf = fast[0][0]
-                    capped = kf.startswith('min(') and 'self.catchup_speed' in kf and 'frames_behind_host(' in kf and 'SPECTATOR_BUFFER_SIZE Sub 1' in kf
+                    # the ring bound may be spelled `SPECTATOR_BUFFER_SIZE - 1` or be a named constant of that value
+                    ring = W.const('SPECTATOR_BUFFER_SIZE') - 1
+                    named = [nm for nm, c in ((p2.split('::')[-1], c2) for p2, c2 in W.fx.consts.items()) if 'val' in c and int(c['val']) == ring and nm in kf]
+                    capped = kf.startswith('min(') and 'self.catchup_speed' in kf and 'frames_behind_host(' in kf and ('SPECTATOR_BUFFER_SIZE Sub 1' in kf or bool(named))
                     gn = normal[0][1]
                     slow = every_disjunct_has(gn, lambda a: match_lin(a, [(has('frames_behind_host('), 1), (exact('self.max_frames_behind'), -1)], hi=0))
                     ok = trig and capped and slow
